@@ -161,7 +161,8 @@ class WildcardPlugin(TaggingPlugin):
         while i < len(group):
             node = group[i]
             if isinstance(node, self.WildcardNode):
-                if i < len(group) - 1 and group[i + 1].is_text():
+                # Absorb all the text and wildcards that follow directly
+                while i < len(group) - 1 and group[i + 1].is_text():
                     nextnode = group.pop(i + 1)
                     node.text += nextnode.text
                 if i > 0 and group[i - 1].is_text():
